@@ -868,6 +868,10 @@ impl Engine for C11 {
             ));
         }
         v.push(Phase::new(
+            "corpus and generated single-module programs with one matched pair of parentheses removed",
+            p_unparen(),
+        ));
+        v.push(Phase::new(
             "corpus with one token of the full alphabet inserted at one site",
             p_ins(if thorough { 100_000 } else { 40 }),
         ));
